@@ -25,11 +25,24 @@
 (***************************************************************************)
 EXTENDS Integers, Sequences, FiniteSets, TLC, Json
 
-CONSTANTS Sizes, MaxPackets, MaxCuts
+CONSTANTS Sizes, MaxPackets, MaxCuts,
+          Proto        \* 2: RFC 4253 binary packet (no MAC);  1: SSH-1 packet (length, 1..8 bytes of padding, type + data + CRC-32)
 
 Pad(n) == LET p == (8 - ((n + 5) % 8)) % 8 IN IF p < 4 THEN p + 8 ELSE p
 PLen(n) == n + Pad(n) + 1
-FrameLen(n) == 4 + PLen(n)
+\* SSH-1: the length field counts type + data + CRC (n + 4 for a body of n bytes); padding brings length + padding to a multiple of 8
+\* and is never empty (a length that is already a multiple of 8 gets 8 bytes)
+Len1(n) == n + 4
+Pad1(n) == 8 - (Len1(n) % 8)
+FrameLen(n) == IF Proto = 2 THEN 4 + PLen(n) ELSE 4 + Pad1(n) + Len1(n)
+\* the reader's steps, in the order of the code's ensure_read() calls, and how many bytes each needs for a body of n bytes
+Steps == IF Proto = 2 THEN <<"len", "padlen", "payload", "padding">> ELSE <<"len", "padding", "payload">>
+NeedOf(step, n) == CASE step = "len" -> 4
+                     [] step = "padlen" -> 1
+                     [] step = "payload" -> (IF Proto = 2 THEN n ELSE Len1(n))
+                     [] step = "padding" -> (IF Proto = 2 THEN Pad(n) ELSE Pad1(n))
+NextStep(step) == LET i == CHOOSE j \in 1..Len(Steps) : Steps[j] = step IN IF i = Len(Steps) THEN "len" ELSE Steps[i + 1]
+LastStep == Steps[Len(Steps)]
 
 RECURSIVE SumTo(_, _)
 SumTo(q, k) == IF k = 0 THEN 0 ELSE FrameLen(q[k]) + SumTo(q, k - 1)
@@ -39,7 +52,7 @@ VARIABLES pkts,        \* payload sizes of the packets sent, in order
           cuts,        \* offsets at which the network ends a segment
           delivered,   \* bytes handed to the reader's buffer so far
           consumed,    \* bytes the reader has taken out of its buffer
-          pc,          \* "len" | "padlen" | "payload" | "padding" | "eof"
+          pc,          \* one of Steps, or "eof"
           cur,         \* index of the packet being read
           out          \* payload sizes returned by completed read_packet() calls
 vars == <<pkts, cuts, delivered, consumed, pc, cur, out>>
@@ -60,11 +73,7 @@ Init ==
 
 Avail == delivered - consumed
 \* what the reader needs next
-Need == CASE pc = "len" -> 4
-          [] pc = "padlen" -> 1
-          [] pc = "payload" -> pkts[cur]               \* payload_length = packet_length - padding_length - 1
-          [] pc = "padding" -> Pad(pkts[cur])
-          [] OTHER -> 0
+Need == IF pc = "eof" \/ cur > Len(pkts) THEN (IF pc = "len" THEN 4 ELSE 0) ELSE NeedOf(pc, pkts[cur])
 
 \* recv(): the next segment arrives (the stream ends after the last packet: a further recv() reports end of stream)
 Recv ==
@@ -79,10 +88,8 @@ Recv ==
 Take ==
     /\ pc # "eof" /\ Avail >= Need
     /\ consumed' = consumed + Need
-    /\ CASE pc = "len" -> pc' = "padlen" /\ UNCHANGED <<out, cur>>
-         [] pc = "padlen" -> pc' = "payload" /\ UNCHANGED <<out, cur>>
-         [] pc = "payload" -> pc' = "padding" /\ UNCHANGED <<out, cur>>
-         [] pc = "padding" -> pc' = "len" /\ out' = Append(out, pkts[cur]) /\ cur' = cur + 1
+    /\ pc' = NextStep(pc)
+    /\ IF pc = LastStep THEN out' = Append(out, pkts[cur]) /\ cur' = cur + 1 ELSE UNCHANGED <<out, cur>>
     /\ UNCHANGED <<pkts, cuts, delivered>>
 
 Next == Recv \/ Take
